@@ -332,7 +332,14 @@ func (s *server) ModifyColumnFamilies(ctx context.Context, req *btapb.ModifyColu
 		}
 	}
 
-	s.storage.SetTableMeta(tbl.def)
+	// Persist the definition only while this is still the registered table: a request that
+	// looked the table up before it was deleted (and possibly re-created under the same name)
+	// must not write the old definition over the new table's, or bring a deleted one back.
+	s.mu.Lock()
+	if s.tables[req.Name] == tbl {
+		s.storage.SetTableMeta(tbl.def)
+	}
+	s.mu.Unlock()
 	return tbl.def, nil
 }
 
